@@ -5,7 +5,7 @@ ID = "C08"
 GEN = ['Array2D.lean']   # regenerated kernels this property's theorems are about (tie 4B)
 RULE = ("exhaustive: every shape 0..5 x 0..5 with every coordinate in -1..w / -1..h for set/get/row/rowset/span/spanset, all four corner orders of fill, clone-then-mutate, "
         "filled and jagged constructors (rows shorter/longer, more/fewer rows than the array); plus random shapes up to 40x40 with random scripts (thorough: more); non-trivial = w*h >= 2 and w != h or any")
-ASSUMPTIONS = ["liveness of Row/RowSpan windows and independence of Clone are observed (write through the window / mutate the clone), not proved", "String formatting"]
+ASSUMPTIONS = ["liveness of Row/RowSpan windows and independence of Clone are observed (write through the window / mutate the clone), not proved", "String formatting (observed for int, string and float64 cells)"]
 
 
 def shape_script(rng, w, h):
@@ -27,7 +27,7 @@ def shape_script(rng, w, h):
         if w > 0:
             x1 = rng.randrange(w); x2 = rng.randrange(x1, w)
             sc.append("spanset 0 %d %d %d %d %d" % (x1, x2, y, rng.randrange(0, x2 - x1 + 1), 700))
-    sc.append("cells 0")
+    sc += ["cells 0", "cellss 0", "cellsf 0"]   # String() with string and float cells too (fmt is not parametric in the cell type)
     sc += ["clone 0 1", "cells 1"]
     if w > 0 and h > 0:
         sc += ["set 1 0 0 -5", "cells 0", "cells 1", "set 0 %d %d -6" % (w - 1, h - 1), "cells 1"]
@@ -37,7 +37,7 @@ def shape_script(rng, w, h):
         sc += ["fill 0 %d %d %d %d %d" % (x1, y1, x2, y2, rng.randrange(900, 999)), "cells 0"]
     if w > 0 and h > 0:
         sc += ["fill 0 %d %d 0 0 41" % (w - 1, h - 1), "cells 0", "fill 0 0 %d %d 0 42" % (h - 1, w - 1), "cells 0"]
-    sc += ["filled 2 %d %d 9" % (w, h), "cells 2"]
+    sc += ["filled 2 %d %d 9" % (w, h), "cells 2", "cellss 2", "cellsf 2"]
     for rows, cols in ((h, w), (h + 2, w + 2), (max(h - 1, 0), max(w - 1, 0)), (h + 1, 1), (1, w + 3), (0, 0)):
         j = "[" + ",".join("[" + ",".join(str(rng.randrange(1, 99)) for _ in range(rng.choice([cols, cols, max(cols - 1, 0)]))) + "]" for _ in range(rows)) + "]"
         sc += ["jagged 3 %d %d %s" % (w, h, j), "cells 3"]
